@@ -1931,3 +1931,12 @@ M("c17-completed-contexts-not-counted", "C17", "R6.boundary-on-small-histories",
 M("c05-stop-drain-loop-doubly-negated", "C05", "R6.stop-releases-queued-waiters", "state.py", "                while not pending.empty():", "                while (not (not pending.empty())):")
 M("c09-decided-call-joins-the-pool", "C09", "R2.decided-call-does-not-join-the-pool", "concurrency/executor.py",
   "            thread_executor.shutdown(wait=False, cancel_futures=True)", "            thread_executor.shutdown(wait=True, cancel_futures=True)")
+
+
+def _wrapper_returns_none(src):
+    i = src.index("            except ExecutionError as e:")
+    j = src.index("return answer", i)
+    return src[:j] + "return None" + src[j + len("return answer"):]
+
+
+M2("c18-failed-checkpoint-answer-dropped", "C18", "R2.every-return-site-hands-back-an-answer", [{"file": "execution.py", "fn": _wrapper_returns_none}])
